@@ -39,3 +39,91 @@ fn c04_kos_check() {
     }
     std::mem::forget(r);
 }
+
+// ------------------------------------------------------------------------------------------
+// C11: correlated OT, output stage of sender and receiver composed (hash = arbitrary function)
+
+/// The tweakable hash as an arbitrary *function* on the points the two sides evaluate it at:
+/// per index j the two points q_j and q_j ^ s (chosen values HA[j], HB[j]); anything else is
+/// unconstrained. (AES itself is outside the technique's reach, DESIGN §2.)
+static mut ENV_Q: [u128; 3] = [0; 3];
+static mut ENV_S: u128 = 0;
+static mut ENV_HA: [u128; 3] = [0; 3];
+static mut ENV_HB: [u128; 3] = [0; 3];
+
+fn env_tccr(tweak: Block, x: Block) -> Block {
+    let j = u128::from(tweak) as usize;
+    let xv = u128::from(x);
+    unsafe {
+        if j < 3 && xv == ENV_Q[j] {
+            Block::from(ENV_HA[j])
+        } else if j < 3 && xv == ENV_Q[j] ^ ENV_S {
+            Block::from(ENV_HB[j])
+        } else {
+            Block::from(any_u128())
+        }
+    }
+}
+
+fn bytes_of(v: &[u128]) -> Vec<u8> {
+    // 3 x 16 bytes, block j = native byte order of v[j] (what Block::from([u8;16]) reads back)
+    let a = v[0].to_ne_bytes();
+    let b = v[1].to_ne_bytes();
+    let c = v[2].to_ne_bytes();
+    vec![
+        a[0], a[1], a[2], a[3], a[4], a[5], a[6], a[7], a[8], a[9], a[10], a[11], a[12], a[13], a[14], a[15],
+        b[0], b[1], b[2], b[3], b[4], b[5], b[6], b[7], b[8], b[9], b[10], b[11], b[12], b[13], b[14], b[15],
+        c[0], c[1], c[2], c[3], c[4], c[5], c[6], c[7], c[8], c[9], c[10], c[11], c[12], c[13], c[14], c[15],
+    ]
+}
+
+/// C11 - correlated OT, 3 transfers: given the ALSZ correlation of the transposed matrices
+/// (t_j = q_j ^ choice_j * s, assumed: it comes out of base OT + transposition), the sender's
+/// output loop and the receiver's output loop - cut from send_correlated / recv_correlated -
+/// give the receiver exactly x0_j ^ (choice_j & delta_j) at every index, x1_j = x0_j ^ delta_j,
+/// and both sides return vectors of the requested length.
+#[kani::proof]
+#[kani::unwind(5)]
+#[kani::stub(std::fmt::format, no_format)]
+fn c11_kos_correlated_output_stage() {
+    let s: u128 = kani::any();
+    let q: [u128; 3] = [kani::any(), kani::any(), kani::any()];
+    let b: [bool; 3] = [kani::any(), kani::any(), kani::any()];
+    let d: [u128; 3] = [kani::any(), kani::any(), kani::any()];
+    let t = [q[0] ^ (if b[0] { s } else { 0 }), q[1] ^ (if b[1] { s } else { 0 }), q[2] ^ (if b[2] { s } else { 0 })];
+    unsafe {
+        ENV_S = s;
+        ENV_Q = q;
+        ENV_HA = [kani::any(), kani::any(), kani::any()];
+        ENV_HB = [kani::any(), kani::any(), kani::any()];
+    }
+    let deltas = [Block::from(d[0]), Block::from(d[1]), Block::from(d[2])];
+    let snd = seg_kos_send_corr(&deltas, bytes_of(&q), 3, Block::from(s));
+    let ok_s = snd.is_ok();
+    assert!(ok_s, "C11:kos:sender-output-stage-Ok");
+    if let Ok((out, ys)) = snd {
+        assert!(out.len() == 3 && ys.len() == 3, "C11:kos:sender-returns-requested-length");
+        if out.len() == 3 && ys.len() == 3 {
+            let y3 = vec![ys[0], ys[1], ys[2]];
+            let rcv = seg_kos_recv_corr(&b, bytes_of(&t), y3, Vec::with_capacity(3));
+            let ok_r = rcv.is_ok();
+            assert!(ok_r, "C11:kos:receiver-output-stage-Ok");
+            if let Ok(r) = rcv {
+                assert!(r.len() == 3, "C11:kos:receiver-returns-requested-length");
+                let mut j = 0;
+                while j < 3 {
+                    let x0 = u128::from(out[j].0);
+                    let x1 = u128::from(out[j].1);
+                    assert!(x1 == x0 ^ d[j], "C11:kos:x1==x0^delta");
+                    if r.len() == 3 {
+                        assert!(u128::from(r[j]) == x0 ^ (if b[j] { d[j] } else { 0 }), "C11:kos:received==x0^(choice&delta)");
+                    }
+                    j += 1;
+                }
+                std::mem::forget(r);
+            }
+        }
+        std::mem::forget((out, ys));
+    }
+    kani::cover!(ok_s && b[1] && s != 0, "kos_corr_nontrivial_reachable");
+}
